@@ -139,6 +139,18 @@ Theorem C20_signature_indexes_guarded : unguarded_indexes = [] /\ gen_index_guar
 Proof. exact signature_indexes_guarded. Qed.
 Print Assumptions C20_signature_indexes_guarded.
 
+(* handler code behind the validators: every overflow-capable sink on message-derived values is named (with its guard, or as
+   an open finding), and the two attacker-indexed paired lists are exactly the pairs whose equal length validation enforces *)
+Theorem C20_handler_sinks_named : unnamed_arith_sites = [] /\ unchecked_pairs = [].
+Proof. exact handler_sinks_named. Qed.
+Print Assumptions C20_handler_sinks_named.
+
+Theorem C20_paired_lengths_checked :
+  (forall m, v_MsgBridgeCallClaim m = VOk -> List.length (bc_tokens m) = List.length (bc_amounts m)) /\
+  (forall mn v nt na rz, v_crosschain_args (CA_BridgeCall mn v nt na rz) = VOk -> nt = na).
+Proof. exact paired_lengths_checked. Qed.
+Print Assumptions C20_paired_lengths_checked.
+
 Theorem C20_validate_nonvacuous :
   v_Params default_params = VOk /\
   v_MsgUpdateParams {| up_authority := BGood 1; up_chain := ChEth; up_params := default_params |} = VOk /\
